@@ -170,3 +170,23 @@ pub fn list_u64(v: &[u64]) -> String {
 
 pub fn is_debug() -> bool { cfg!(debug_assertions) }
 pub fn has_bmi2() -> bool { cfg!(target_feature = "bmi2") }
+
+/// Out-of-range cell numbers for a depth: just above `n_hash`, structured (base-cell field `b >= 12` in every byte
+/// position: `b`, `b + 16k`, `b + 256k`, high bits, so that a range test done on a truncated or masked base-cell number
+/// is seen), uniformly random, extreme.
+pub fn out_of_range_hashes(depth: u8, rng: &mut Rng, n_structured: usize) -> Vec<u64> {
+  let nh = 12u64 << (2 * depth as u32);
+  let td = 2 * depth as u32;
+  let mut bad: Vec<u64> = vec![nh, nh + 1, nh + 7, nh.wrapping_mul(2), nh + rng.below(nh.max(1)), u64::MAX >> 2, u64::MAX >> 1, u64::MAX];
+  for _ in 0..n_structured {
+    let low = if td == 0 { 0 } else { rng.next() & ((1u64 << td) - 1) };
+    let room = 64 - td; // bits available for the base-cell field
+    let b = match rng.below(4) { 0 => 12 + rng.below(4), 1 => 16 * (1 + rng.below(15)) + rng.below(12), 2 => 256 * (1 + rng.below(255)) + rng.below(12), _ => (1u64 << (8 + rng.below(24) as u32)) + rng.below(12) };
+    let b = if room >= 64 { b } else { b & ((1u64 << room) - 1) };
+    let h = (b << td) | low;
+    if h >= nh { bad.push(h); }
+    let r = rng.next(); if r >= nh { bad.push(r); }
+  }
+  bad.retain(|h| *h >= nh);
+  bad
+}
